@@ -19,6 +19,8 @@ import (
 
 	"github.com/Cloud-Foundations/keymaster/lib/instrumentedwriter"
 	"github.com/Cloud-Foundations/keymaster/lib/webapi/v0/proto"
+	"github.com/pquerna/otp"
+	"github.com/pquerna/otp/hotp"
 	"github.com/pquerna/otp/totp"
 )
 
@@ -355,10 +357,28 @@ const minSecsBetweenTOTPValidations = 2
 const numHoursForLocalTOTPRateLimitReset = 24
 const numFailedTOTPChecksForTimeoutIncrease = 5
 
+const totpPeriodSeconds = 30
+
+// totpMatchingCounter returns the time step whose code is the passcode, among
+// the steps accepted around time t (the current one and one on each side, as
+// totp.Validate does). The latest matching step is returned.
+func totpMatchingCounter(passcode string, secret string, t time.Time) (int64, bool) {
+	counter := int64(math.Floor(float64(t.Unix()) / float64(totpPeriodSeconds)))
+	for _, candidate := range []int64{counter + 1, counter, counter - 1} {
+		valid, err := hotp.ValidateCustom(passcode, uint64(candidate), secret,
+			hotp.ValidateOpts{Digits: otp.DigitsSix, Algorithm: otp.AlgorithmSHA1})
+		if err == nil && valid {
+			return candidate, true
+		}
+	}
+	return 0, false
+}
+
 // This function is the one actually validating the TOTP values, returns err non nil
-// if there is a problem with the internal state. Returns true if the previous OTP success
-// for this user is NOT on this period AND one of the otp values matches the one of the user's
-// registered keys.
+// if there is a problem with the internal state. Returns true if one of the otp values
+// matches the one of the user's registered keys AND the time step of that value is later
+// than the step of the previous OTP success for this user: a value is accepted once, and
+// values older than an accepted one are not accepted either.
 func (state *RuntimeState) validateUserTOTP(username string, OTPValue int, t time.Time) (bool, error) {
 	//Do a redirect
 	profile, _, fromCache, err := state.LoadUserProfile(username)
@@ -395,14 +415,6 @@ func (state *RuntimeState) validateUserTOTP(username string, OTPValue int, t tim
 		//http.Error(w, "db backend is offline for writes", http.StatusServiceUnavailable)
 		//return
 	}
-	//Check if value is on blacklist for that user?
-	// Check if there is a value successfully accepted for that counter value
-	const defaultPeriod = 30
-	counter := int64(math.Floor(float64(t.Unix()) / float64(defaultPeriod)))
-	if profile.LastSuccessfullTOTPCounter == counter {
-		logger.Printf("validateUserTOTP: already done TOTP within time period")
-		return false, nil
-	}
 	OTPString := fmt.Sprintf("%06d", OTPValue)
 	//Now iterate
 	for _, deviceInfo := range profile.TOTPAuthData {
@@ -415,9 +427,14 @@ func (state *RuntimeState) validateUserTOTP(username string, OTPValue int, t tim
 			return false, err
 		}
 
-		valid := totp.Validate(OTPString, string(clearTextKey))
+		counter, valid := totpMatchingCounter(OTPString, string(clearTextKey), t)
 		if !valid {
 			continue
+		}
+		// Check if this value, or a later one, was already accepted
+		if counter <= profile.LastSuccessfullTOTPCounter {
+			logger.Printf("validateUserTOTP: TOTP value already used")
+			return false, nil
 		}
 		if !fromCache {
 			profile.LastSuccessfullTOTPCounter = counter
